@@ -12,7 +12,7 @@ from ..fold import UNKNOWN, known
 from ..model import AnalysisError, Class, Func, own_nodes, src
 from ..pathsem import function_paths, resolve_local
 from ..typeinf import classes_of
-from .common import chain, chains_in, deep_resolve, first_difference, mentions, names_in, norm_field, normalised_body
+from .common import call_keywords, chain, chains_in, deep_resolve, first_difference, inline_helper_call, mentions, names_in, norm_field, normalised_body
 
 PROPERTY = "C01"
 LEVEL = "other"
@@ -179,7 +179,7 @@ def r01_2(ctx: Ctx, rep: Report, orders: Dict[str, List[str]]) -> None:  # noqa:
     stores: Dict[str, Tuple[ast.AST, ast.AST]] = {}
     for n in own_nodes(ls.node):
         if isinstance(n, ast.Assign) and isinstance(n.targets[0], ast.Attribute) and src(n.targets[0].value) == "self":
-            stores[n.targets[0].attr] = (resolve_local(n.value, locals_), n)
+            stores[n.targets[0].attr] = (inline_helper_call(ctx, ls, resolve_local(n.value, locals_)), n)
     calls: Dict[str, ast.Call] = {}
     for field, ctor in FIELD_CTOR.items():
         rep.instance()
@@ -227,11 +227,7 @@ def r01_2(ctx: Ctx, rep: Report, orders: Dict[str, List[str]]) -> None:  # noqa:
         pname = src(pobj)
         vals = []
         for field in ("srcport", "dstport"):
-            kw = {k.arg: k.value for k in calls[field].keywords if k.arg}
-            star = [resolve_local(k.value, locals_) for k in calls[field].keywords if k.arg is None]
-            for s_ in star:
-                if isinstance(s_, ast.Call):
-                    kw.update({k.arg: k.value for k in s_.keywords if k.arg})
+            kw = call_keywords(calls[field], locals_)
             vals.append(src(kw["protocol"]) if "protocol" in kw else None)
         pn_ok = vals[0] == vals[1] and vals[0] in (f"{pname}.name", f"{pname}.line")
         if pn_ok:
@@ -240,14 +236,12 @@ def r01_2(ctx: Ctx, rep: Report, orders: Dict[str, List[str]]) -> None:  # noqa:
             rep.violation("Ace.line.setter", f"port protocol {vals}", f"both ports must be built under the name of the same Protocol object that is stored ({pname}): otherwise port names are looked up in the wrong table", where(ls))
     # render order
     g = ctx.func("Ace.line.getter")
-    lists = [n for n in own_nodes(g.node) if isinstance(n, (ast.List, ast.Tuple)) and len(n.elts) >= 3]
-    for lst in lists:
+    from .common import rendered_fields
+
+    for seq in rendered_fields(ctx, g):
         rep.instance()
-        fields = []
-        for e in lst.elts:
-            cs = [c for c in chains_in(e) if c[0] == "self" and len(c) >= 2]
-            if cs:
-                fields.append(norm_field(g.cls, cs[0][1].rstrip("()")).lstrip("_").replace("sequence_s", "sequence"))
+        lst = g.node
+        fields = [norm_field(g.cls, a.rstrip("()")).lstrip("_").replace("sequence_s", "sequence") for a in seq]
         want_ext = [k for k in orders.get("parsers.parse_ace_extended", [])]
         want_std = [k for k in orders.get("parsers.parse_ace_standard", [])]
         if len(fields) >= 6:
@@ -278,7 +272,7 @@ def field_isolation(ctx: Ctx, rep: Report, rid: str) -> None:
     for n in own_nodes(ls.node):
         if isinstance(n, ast.Assign) and isinstance(n.targets[0], ast.Attribute) and src(n.targets[0].value) == "self":
             attr = n.targets[0].attr
-            v = resolve_local(n.value, locals_)
+            v = inline_helper_call(ctx, ls, resolve_local(n.value, locals_))
             if attr.lstrip("_") in FIELD_CTOR and isinstance(v, ast.Call):
                 calls[attr.lstrip("_")] = v
                 rep.instance()
